@@ -217,6 +217,59 @@ class Spec:
             del self.conns[c]
 
 
+class VersionLedger:
+    """The version clause of the property restated on the real code's answers, for ANY op history: "a database
+    written under a different schema or client version is never interpreted".  Every record is stored under the
+    (schema, client) version pair of the BuildDB object that stored it (the schema version is the same for every
+    object of one binary, so the pair is identified by the client version).  A lookup or key enumeration through an
+    object with another pair must never hand out such a record - however long that object has been alive, whoever
+    recreated the file in between - unless the very same record was also stored for that key under the reader's
+    own pair.  `observe(line, impl_output)` returns None or the discriminating details of a violation."""
+
+    def __init__(self, schema_version):
+        self.schema_version = schema_version
+        self.client = {}          # slot -> client version of the live BuildDB object
+        self.written = {}         # key hex -> {result text -> set of client versions that stored it}
+
+    def observe(self, line, impl):
+        f = line.split(" ")
+        op = f[0]
+        if op == "reset":
+            self.client, self.written = {}, {}
+            return None
+        if op == "crash":
+            self.client = {}
+            return None
+        if op in ("raw", "busyms") or len(f) < 2:
+            return None
+        c = int(f[1])
+        if op == "new":
+            self.client[c] = int(f[2])
+            return None
+        if op == "drop":
+            self.client.pop(c, None)
+            return None
+        if c not in self.client:
+            return None
+        me = self.client[c]
+        if op == "set" and impl == "ok":
+            deps = [] if f[7] == "." else [(C.unhex(d.split(":")[0]), int(d.split(":")[1])) for d in f[7].split(",")]
+            r = fmt_result({"value": C.unhex(f[3]), "sig": int(f[4]), "built": int(f[5]), "computed": int(f[6]), "deps": deps})
+            self.written.setdefault(f[2], {}).setdefault(r, set()).add(me)
+            return None
+        found = []
+        if op == "lookup" and impl.startswith("value="):
+            found = [(f[2], impl)]
+        elif op == "keys" and impl.startswith("n="):
+            found = [tuple(r[4:].split("|", 1)) for r in impl.split(" ; ")[1:]]
+        for k, r in found:
+            who = self.written.get(k, {}).get(r)
+            if who and me not in who:
+                return {"key": k, "record": r[:200], "reader_version_pair": [self.schema_version, me],
+                        "writer_version_pairs": [[self.schema_version, w] for w in sorted(who)]}
+        return None
+
+
 # --------------------------------------------------------------------------------------------------
 # structured histories ("valid" stream): processes come and go, builds commit or crash, versions differ,
 # a second writer knocks while a build holds the database, a BuildDB object outlives a recreate
@@ -308,6 +361,84 @@ def gen_history(rng, schema_version, thorough=False, nbuilds=None, keys=None, cr
             emit("keys 7")
             emit("epoch 7")
             emit("drop 7")
+    return lines, exp
+
+
+def foreign_history(rng, schema_version, keys):
+    """object A (client a) builds and stays alive; object B with a DIFFERENT version pair takes the file over
+    (recreates it) and builds, storing the same and other keys; then A is used again, through every entry point
+    first (lookup / keys / epoch / start / set), with recreateUnmatchedVersion true (BuildSystem) and false (C API):
+    A must see an empty recreated database or a version error, never B's records.  Then A or a later process builds
+    on, and a fresh process reads everything back."""
+    spec = Spec(schema_version)
+    lines, exp = [], []
+
+    def emit(l):
+        lines.append(l)
+        exp.append(spec.expect(l))
+        return exp[-1]
+
+    def build(c, ks):
+        if emit("start %d" % c) != "ok":
+            return
+        e = spec._view(c)["iteration"] + 1
+        for k in ks:
+            deps = [(rng.choice(keys), rng.below(4)) for _ in range(rng.below(3))]
+            emit("set %d %s %s %d %d %d %s" % (c, C.hexs(k), C.hexs(rand_value(rng)), rand_u64(rng), e, 1 + rng.below(e), fmt_deps(deps)))
+        emit("setiter %d %d" % (c, e))
+        emit("complete %d" % c)
+
+    emit("reset")
+    a = rng.choice([1, 2, 3])
+    b = rng.choice([x for x in (1, 2, 3, 65537) if x != a])
+    ra = 1 if rng.chance(1, 2) else 0
+    if not ra:
+        emit("new 4 %d 1" % a); emit("epoch 4"); emit("drop 4")       # the C API opener needs an existing file of its version
+    emit("new 0 %d %d" % (a, ra))
+    ka = rng.shuffle(keys)[:2 + rng.below(3)]
+    for _ in range(1 + rng.below(2)):
+        build(0, ka)
+    # B takes over: its own open() still checks, so the file is recreated under B's pair
+    emit("new 1 %d 1" % b)
+    kb = ka[:1 + rng.below(len(ka))] + rng.shuffle(keys)[:1 + rng.below(2)]
+    for _ in range(1 + rng.below(2)):
+        build(1, kb)
+    if rng.chance(1, 2):
+        emit("drop 1")
+    emit("raw")
+    # A again
+    first = rng.below(5)
+    if first == 3:
+        emit("start 0")
+    elif first == 4:
+        emit("epoch 0")
+    for k in rng.shuffle(kb):
+        emit("lookup 0 %s" % C.hexs(k))
+    emit("keys 0")
+    emit("epoch 0")
+    if first == 3:
+        e = 1
+        if spec.conns[0]["state"] == "txn":
+            e = spec._view(0)["iteration"] + 1
+            emit("set 0 %s %s 5 %d %d ." % (C.hexs(ka[0]), C.hexs(rand_value(rng)), e, e))
+            emit("setiter 0 %d" % e)
+        emit("complete 0")
+    elif rng.chance(1, 2):
+        emit("complete 0")
+        build(0, ka[:2])
+    emit("raw")
+    for i in list(spec.conns):
+        # (A too, even where the property says its start was refused: a reader knocking on a lock that should not
+        # exist would only exercise the half-open object, observation O1)
+        if spec.conns[i]["state"] == "open" or i == 0:
+            emit("complete %d" % i)
+    cl = spec.file["client"] if spec.file else a
+    emit("new 7 %d 0" % cl)
+    for k in rng.shuffle(list(dict.fromkeys(ka + kb)))[:5]:
+        emit("lookup 7 %s" % C.hexs(k))
+    emit("keys 7")
+    emit("epoch 7")
+    emit("drop 7")
     return lines, exp
 
 
@@ -506,8 +637,31 @@ class Check(PropertyCheck):
         for i in range(nmal):
             l = malformed_history(rng, key_pool(rng, False))
             lines += l; exp += [None] * len(l); tag += ["malformed"] * len(l)
+        # a long-lived object vs another version pair (own generator stream: the streams above stay as they were)
+        frng = C.Rng(ctx.seed, "C03/foreign")
+        nforeign = 150 if ctx.thorough else 30
+        for i in range(nforeign):
+            l, e = foreign_history(frng, sv, key_pool(frng, False))
+            lines += l; exp += e; tag += ["foreign-version"] * len(l)
         lines.append("busyms"); exp.append("busyms=5000"); tag.append("busy")
         m, (hrc, hout, herr) = run_db(ctx, lines)
+        # the real code dying in the middle of a history is a concrete failure of that history, not the end of the check:
+        # report it with its input and carry on with the next history in a new process
+        DIED = "<process died>"
+        deaths = 0
+        while hrc != 0 and len(hout) < len(lines) and deaths < 8:
+            at = len(hout)
+            hs = max(i for i in range(at + 1) if lines[i] == "reset")
+            deaths += 1
+            res.oracle_failures.append({"what": "the process using the database died (exit %d) while executing %r" % (hrc, short(lines[at])[:120]), "kind": "process-died",
+                                        "op": lines[at].split(" ")[0], "stream": tag[at], "input": {"history": [short(x) for x in lines[hs:at + 1][-80:]], "op": short(lines[at]), "stderr": herr[-300:]}})
+            nxt = next((i for i in range(at + 1, len(lines)) if lines[i] == "reset"), len(lines))
+            hout += [DIED] * (nxt - at)
+            if nxt < len(lines):
+                hrc, more, herr = C.run_lines([ctx.exe[("vc03", "plain")], "db", os.path.join(C.BUILD, "scratch", "c03-%d" % os.getpid())], lines[nxt:])
+                hout += more
+            else:
+                hrc = 0
         if hrc != 0 or len(hout) != len(lines):
             res.mismatches.append({"stream": "c03db", "input": "harness exit %d, %d/%d lines" % (hrc, len(hout), len(lines)), "impl": herr[-300:]})
             return
@@ -518,14 +672,28 @@ class Check(PropertyCheck):
         outcomes = {}
         nontriv = 0
         hist_start = 0
+        ledger = VersionLedger(sv)
+        reopened_foreign = 0
         for i, line in enumerate(lines):
             if line == "reset":
                 hist_start = i
+            # the version clause, on every stream (structured, unstructured, fixed scenarios)
+            fv = ledger.observe(line, hout[i])
+            if fv is not None:
+                if len(res.oracle_failures) < 40:
+                    res.oracle_failures.append(dict(fv, what="a BuildDB object with version pair %s was handed a record that was only ever stored under version pair(s) %s: the database of another schema/client version was interpreted" % (
+                        fv["reader_version_pair"], fv["writer_version_pairs"]), kind="foreign-version-record-interpreted", op=line.split(" ")[0], stream=tag[i],
+                        input={"history": [short(x) for x in lines[hist_start:i + 1][-80:]], "op": short(line), "answer": short(hout[i])[:300]}))
+                continue
+            if tag[i] == "foreign-version" and line.startswith(("lookup 0", "keys 0")) and exp[i] in ("none", "n=0/0", "error=version"):
+                reopened_foreign += 1
             op = line.split(" ")[0]
             ops[op] = ops.get(op, 0) + 1
             o = hout[i].split("=")[0].split(" ")[0] if hout[i].startswith(("error", "none", "ok", "no-conn")) else "data"
             key = hout[i] if hout[i].startswith("error") else o
             outcomes[key] = outcomes.get(key, 0) + 1
+            if hout[i] == DIED:
+                continue
             if op == "busyms":
                 if hout[i] != exp[i]:
                     res.oracle_failures.append({"what": "busy timeout requested by open() is %s, expected 5000 ms" % hout[i], "op": "busyms", "kind": "busy-timeout", "input": line})
@@ -545,7 +713,9 @@ class Check(PropertyCheck):
         res.distinct_nontrivial += nontriv
         res.distribution["db_ops"] = ops
         res.distribution["db_outcomes"] = dict(sorted(outcomes.items(), key=lambda kv: -kv[1])[:12])
-        res.distribution["db_histories"] = {"valid": nvalid, "malformed": nmal, "fixed_scenarios": 2}
+        res.distribution["db_histories"] = {"valid": nvalid, "malformed": nmal, "fixed_scenarios": 2, "foreign_version": nforeign}
+        res.distribution["reads_through_a_long_lived_object_after_a_takeover_by_another_version"] = reopened_foreign
+        res.distinct_nontrivial += reopened_foreign
         res.samples.append({"op": lines[12], "impl": hout[12][:200]})
 
     def stream_affinity(self, ctx, res):
@@ -630,8 +800,10 @@ class Check(PropertyCheck):
         ec.run_restart_split(ctx, res, 600 if ctx.thorough else 120)
         res.rule = ("restart-split: generated engine histories executed in one engine and with a restart at every build boundary, results and "
                     "executed sets compared. " + "db: op histories on the real BuildDB and on the model, compared line by line (structured histories: processes come and go, "
-                    "builds commit/crash, client versions differ, second writer knocks, a BuildDB object outlives a recreate; plus unstructured op "
-                    "sequences); the python Spec states what the property demands for every lookup/keys/epoch/gate outcome of the structured "
+                    "builds commit/crash, client versions differ, second writer knocks, a BuildDB object outlives a recreate; a stream in which an object "
+                    "stays alive while another (schema, client) version pair recreates the file and is then used again through every entry point, "
+                    "recreate flag true and false; plus unstructured op sequences); on every stream no read may return a record stored only under "
+                    "another version pair (VersionLedger); the python Spec states what the property demands for every lookup/keys/epoch/gate outcome of the structured "
                     "histories. Non-trivial (db) = a lookup/keys that returned stored data which the Spec then checked. affinity: (declared type, "
                     "text, probe) triples against the real sqlite3; non-trivial = the text was converted to INTEGER/REAL. merged: BuildSystem "
                     "client versions through a real BuildSystem::attachDB.")
